@@ -308,11 +308,53 @@ def case_job_default_flags(ctx, defaults):
         meshio.xdmf.TimeSeriesWriter = orig
     frames = [e for e in Writer.log if e[0] == "data"]
     ctx.check_concrete("one_frame_written", len(frames) == 1, "frames %d" % len(frames))
+    # the same job evaluated once more (e.g. a dry run first, then with a file): the frame times of the file start at 0 again
+    Writer.log = []
+    meshio.xdmf.TimeSeriesWriter = Writer
+    try:
+        job.evaluate(filename="never_written_2.xdmf", solver=lambda A, b: np.zeros(np.asarray(b.toarray() if hasattr(b, "toarray") else b).shape[0]), verbose=False,
+                     point_data_default=defaults[0], cell_data_default=defaults[1])
+    finally:
+        meshio.xdmf.TimeSeriesWriter = orig
+    times2 = [e[1] for e in Writer.log if e[0] == "data"]
+    ctx.check_concrete("frame_times_of_a_repeated_evaluation_start_at_zero", times2 == [0], "times %s" % times2)
     dflt_c = {"Principal Values of Logarithmic Strain", "Logarithmic Strain", "Deformation Gradient"}
     ok = all((("Displacement" in fr[2]) == bool(defaults[0])) and ("twice" in fr[2]) and ((dflt_c <= set(fr[3])) == bool(defaults[1])) and (defaults[1] or not (dflt_c & set(fr[3]))) and ("first_value" in fr[3]) for fr in frames)
     ctx.check_concrete("default_point_and_cell_data_follow_their_own_flags", ok and len(frames) == 1, "keys %s" % [(sorted(fr[2]), sorted(fr[3])) for fr in frames][:1])
     s_ = ctx.var("s", 0.5, 2)
     ctx.equal("solver_content", s_ * E, E * s_)
+
+
+def case_save_twice(ctx):
+    """tools.save called twice in one process: the second file contains exactly what the second call was given (no reaction forces
+    carried over from the first call)"""
+    import meshio
+
+    with ctx.concrete():
+        m = fem.Cube(n=2)
+        region = fem.RegionHexahedron(m)
+        field = fem.FieldContainer([fem.Field(region, dim=3)])
+    field[0].values = ctx.array("u", field[0].values.shape, -1, 1)
+    r = ctx.array("r", (field[0].values.size,), -2, 2)
+    seen = []
+
+    class Rec:
+        def __init__(self, points, cells, point_data=None, cell_data=None, **kw):
+            seen.append(dict(point_data=dict(point_data or {}), cell_data=dict(cell_data or {})))
+
+        def write(self, filename, **kw):
+            seen[-1]["filename"] = filename
+
+    orig = meshio.Mesh
+    meshio.Mesh = Rec
+    try:
+        fem.save(region, field, forces=r, filename="never_written_a.vtu")
+        fem.save(region, field, filename="never_written_b.vtu")
+    finally:
+        meshio.Mesh = orig
+    ctx.check_concrete("first_file_has_reaction_forces", "Reaction Force" in seen[0]["point_data"])
+    ctx.check_concrete("second_file_has_only_what_the_second_call_was_given", sorted(seen[1]["point_data"]) == ["Displacements"], "point data of the second file: %s" % sorted(seen[1]["point_data"]))
+    ctx.equal("displacements_of_second_file", seen[1]["point_data"]["Displacements"], field[0].values)
 
 
 def case_default_cell_data(ctx):
@@ -344,5 +386,6 @@ def cases(tier):
     out.append(("job_writer", case_job_writer, {"with_x0": True, "max_paths": 16}))
     for dflt in ([True, False], [False, True], [False, False], [True, True]):
         out.append(("job_default_flags", case_job_default_flags, {"defaults": dflt, "max_paths": 8}))
+    out.append(("save_twice", case_save_twice, {}))
     out.append(("default_cell_data", case_default_cell_data, {}))
     return out
